@@ -380,7 +380,8 @@ fn gen_plan(r: &mut Rng, toks: &[String], next_probe: &mut i32) -> Vec<Step> {
                 let mode = *r.pick(&[0usize, 0, 1, 1, 3, 3, 3, 4, 4, 5, 5, 5]);
                 let cands: Vec<usize> = (0..n)
                     .filter(|i| match mode {
-                        0 => !matches!(toks[*i].as_str(), "end" | "else"),
+                        // the function's final `end` takes `before` probes (they fire when the body falls through to it)
+                        0 => !matches!(toks[*i].as_str(), "end" | "else") || *i + 1 == n,
                         1 => !is_structural(&toks[*i]),
                         3 => (is_block_style(&toks[*i]) && !toks[*i].starts_with("loop")) || is_branch(&toks[*i]),
                         _ => is_block_style(&toks[*i]),
@@ -407,6 +408,17 @@ fn gen_plan(r: &mut Rng, toks: &[String], next_probe: &mut i32) -> Vec<Step> {
                 }
             }
             _ => plan.push(Step::Func { exit: r.chance(3, 5), probes }),
+        }
+    }
+    // function-exit probes together with a `before` probe on the final `end`: the exit code follows the wrapper's `end`, the
+    // before-probe precedes it
+    if plan.iter().any(|s| matches!(s, Step::Func { exit: true, .. })) && r.chance(1, 3) {
+        *next_probe += 1;
+        let s = Step::At { idx: n - 1, mode: 0, probes: vec![*next_probe] };
+        if r.chance(1, 2) {
+            plan.push(s);
+        } else {
+            plan.insert(0, s);
         }
     }
     plan
